@@ -155,9 +155,25 @@ def run(chk):
             nfail += 1
             if nfail <= 6:
                 chk.violation("%s on `%s`" % (why, c[:160]), {"case": c, "impl": r, "model": p, "variant": "asan"})
+    # (3) the same shapes in point-wise relative mode (own decoder dispatch per rank; exact per-element oracle of the `pw` op)
+    pshapes = [(30,), (1, 30), (30, 1), (6, 7), (7, 1, 6), (1, 6, 1, 7), (3, 4, 5), (3, 1, 4, 5), (5, 4, 3, 1), (6, 5, 4, 3), (3, 4, 5, 6), (2, 3, 5, 7), (3, 4, 4, 3), (1, 2, 3, 5, 7), (2, 3, 1, 5, 7), (22,), (21,), (5, 5)]
+    pw = []
+    for t in pshapes:
+        for ty in (0, 1):
+            for r, cfgp in ((1e-2, "szMode=SZ_BEST_SPEED"), (1e-3, "-"), (1e-6, "szMode=SZ_BEST_SPEED")):
+                pw.append("pw %x %s %s %s %d %x 3" % (ty, tup5(t), dbits(r), cfgp, chk.rng.choice((0, 1, 2)), chk.rng.getrandbits(16)))
+    po = lib.run_cases(exe, pw, timeout=1800)
+    for c, r in zip(pw, po):
+        chk.cov["evaluations"] += 1
+        chk.distinct.add(c)
+        d = kv(r.split(" | ", 1)[1] if r.startswith("DIED") and " | " in r else r)
+        if r.startswith("DIED") or d.get("st") != "ok" or int(d.get("viol", "1"), 16):
+            nfail += 1
+            if nfail <= 6:
+                chk.violation("point-wise relative round trip with this shape: %s on `%s`" % (r[:160], c[:120]), {"case": c, "impl": r[:400], "variant": "asan"})
     chk.cov["rule"] = ("fdim: every tuple of 1..5 sizes over {1,2,3,5,21} plus random tuples up to 4095, generated Gallina vs compiled C; "
                        "rt: compress/decompress through SZ_compress_args/SZ_decompress (ASan) with the same tuple and with the size-1 "
-                       "dimensions squeezed on either side, 10 element types, ABS/REL; non-trivial = all; distinct = distinct case line")
+                       "dimensions squeezed on either side, 10 element types, ABS/REL; pw: float/double PW_REL round trips over ranks 1..4 with size-1 dimensions and non-palindromic 4-D shapes; non-trivial = all; distinct = distinct case line")
     chk.cov["input_distribution"] = {"fdim": len(fd), "rt": len(rt)}
     chk.cov["traces_validated_against_impl"] = len(fd) - len(bad)
     for c in fd[100:102] + rt[:3]:
@@ -177,6 +193,9 @@ def replay(chk, path):
     exe = lib.build_impl(r.get("variant", "asan"))
     out = lib.run_cases(exe, [r["case"]])[0]
     why = rt_oracle(r["case"], out, {}) if r["case"].startswith("rt") else None
+    if r["case"].startswith("pw"):
+        d = kv(out)
+        why = None if (d.get("st") == "ok" and int(d.get("viol", "1"), 16) == 0) else "point-wise relative round trip fails: " + out[:200]
     print("case:", r["case"][:300])
     print("impl:", out[:300])
     print("result:", why or "property holds on this case")
